@@ -81,7 +81,10 @@ impl Resolver {
     }
 
     fn lookup_with_prefix(&mut self, name: &Rc<String>, context: Namespace) -> bool {
-        if self.lookup_exact(name, context) {
+        // A short prefix on its own is not a unit: keep looking for the
+        // readings the name has as one.
+        let exact = self.lookup_exact(name, context);
+        if exact && (context != Namespace::Unit || self.takes_prefix(name, context)) {
             return true;
         }
         let mut found = vec![];
@@ -90,12 +93,37 @@ impl Resolver {
                 found.push(prefix.clone());
             }
         }
-        found.into_iter().any(|pre| {
-            self.lookup_exact(&Rc::new(name[pre.name.len()..].to_owned()), context) && {
+        // Every way of splitting the name has to be loaded before the
+        // definition is evaluated. Otherwise the name would be read with
+        // whichever prefixes and units happen to exist by then, which can
+        // differ from how it reads once everything is loaded.
+        let mut any = false;
+        for pre in found {
+            let rest = Rc::new(name[pre.name.len()..].to_owned());
+            if self.takes_prefix(&rest, context) && self.lookup_exact(&rest, context) {
                 self.visit(&pre);
-                true
+                any = true;
             }
-        })
+        }
+        any || exact
+    }
+
+    /// Whether a prefix in front of `name` makes a unit name: only
+    /// units (long prefixes are units as well) take prefixes, a short
+    /// prefix on its own does not.
+    fn takes_prefix(&self, name: &Rc<String>, context: Namespace) -> bool {
+        if context == Namespace::Quantity {
+            return true;
+        }
+        let id = |namespace| Id {
+            namespace,
+            name: name.clone(),
+        };
+        self.input.contains_key(&id(Namespace::Unit))
+            || matches!(
+                self.input.get(&id(Namespace::Prefix)).map(|def| &**def),
+                Some(Def::Prefix { is_long: true, .. })
+            )
     }
 
     fn lookup(&mut self, name: &Rc<String>, context: Namespace) -> bool {
